@@ -123,7 +123,7 @@ def ref_eq(t1, t2):
 
 def mutate(rng, t):
     """Return (kind, tree') : a variant of t."""
-    kind = rng.choice(["same", "reorder", "privadd", "privchange", "nested", "drop", "addnone", "nonevalue", "leaf"])
+    kind = rng.choice(["same", "reorder", "privadd", "privchange", "nested", "drop", "addnone", "nonevalue", "leaf", "listappend", "listdroplast", "listdropfirst", "listswap"])
     t2 = copy.deepcopy(t)
     nodes = []
 
@@ -139,6 +139,21 @@ def mutate(rng, t):
     cs = [n for n in nodes if n[0] == "C"]
     if kind == "same" or not cs:
         return "same", t2
+    if kind.startswith("list"):
+        # lists that differ only in length (one a prefix / suffix of the other) or in element order
+        ls = [n for n in nodes if n[0] in ("L", "l") and n is not t2]
+        if not ls:
+            return "same", t2
+        n = rng.choice(ls)
+        if kind == "listappend":
+            n[1].append(("v", rng.choice([0, None, 7, b""])))
+        elif kind == "listdroplast" and n[1]:
+            n[1].pop()
+        elif kind == "listdropfirst" and n[1]:
+            n[1].pop(0)
+        elif kind == "listswap" and len(n[1]) >= 2:
+            n[1][0], n[1][-1] = n[1][-1], n[1][0]
+        return kind, t2
     n = rng.choice(cs)
     if kind == "reorder":
         rng.shuffle(n[1])
